@@ -34,6 +34,9 @@ T0 = 10                                  # model clock at the start of a history
 EPOCH0 = 1_000_000_000                   # real clock value that corresponds to model time 0
 CLOCK_FRACTION = 0.5                     # the patched clock reads EPOCH0 + t + 0.5
 EXP_PAST, EXP_FUTURE = 5, 13             # absolute model times used for Expires
+EXP_EPOCH = 1                            # CookieStore!EpochDate: rendered literally as 1 Jan 1970 00:00:00 GMT
+BAD_MAXAGE = -2                          # Max-Age present but not a number (RFC 6265 5.2.2: attribute ignored)
+RC_VALUES = {"n": 1001, "m": 1002}       # values of per-request cookies (cookies= of a session call)
 
 
 def host_str(labels: List[str]) -> str:
@@ -110,8 +113,9 @@ _MONTHS = ["Jan", "Feb", "Mar", "Apr", "May", "Jun", "Jul", "Aug", "Sep", "Oct",
 
 
 def http_date(model_t: int, fmt: str = "rfc1123") -> str:
-    tm = _time.gmtime(EPOCH0 + model_t)
-    assert calendar.timegm(tm) == EPOCH0 + model_t
+    real = 0 if model_t == EXP_EPOCH else EPOCH0 + model_t
+    tm = _time.gmtime(real)
+    assert calendar.timegm(tm) == real
     if fmt == "rfc850":
         return "%s, %02d-%s-%02d %02d:%02d:%02d GMT" % (_LONGDAYS[tm.tm_wday], tm.tm_mday, _MONTHS[tm.tm_mon - 1],
                                                         tm.tm_year % 100, tm.tm_hour, tm.tm_min, tm.tm_sec)
@@ -126,7 +130,8 @@ def http_date(model_t: int, fmt: str = "rfc1123") -> str:
 def blank_event(ev: str = "init") -> dict:
     return {"ev": ev, "host": [], "path": dict(ROOT), "scheme": "http", "name": "", "val": 0,
             "dom": _da(False, []), "pth": {"present": False, "segs": [], "trail": True},
-            "secure": False, "maxage": -1, "expires": 0, "d": [], "n": 0, "re": 0}
+            "secure": False, "maxage": -1, "expires": 0, "d": [], "n": 0, "re": 0,
+            "via": "jar", "start": False, "rc": [0, 0]}
 
 
 def receive_event(host: List[str], path: dict, scheme: str, name: str, val: int, dom: dict,
@@ -158,6 +163,8 @@ def render_set_cookie(e: dict, rng: Any = None) -> str:
         attrs.append(nm("Secure"))
     if e["maxage"] >= 0:
         attrs.append(f"{nm('Max-Age')}={e['maxage']}")
+    elif e["maxage"] == BAD_MAXAGE:
+        attrs.append(f"{nm('Max-Age')}=" + ("2x" if rng is None else rng.choice(["2x", "abc", "1.5", "2s"])))
     if e["expires"]:
         fmt = "rfc1123" if rng is None else rng.choice(["rfc1123", "rfc1123", "rfc850", "asctime"])
         attrs.append(f"{nm('Expires')}={http_date(e['expires'], fmt)}")
@@ -168,6 +175,14 @@ def render_set_cookie(e: dict, rng: Any = None) -> str:
         rng.shuffle(attrs)
         sep = rng.choice(["; ", "; ", ";", " ; "])
     return sep.join([f"{e['name']}={e['val']}"] + attrs)
+
+
+def random_lifetime(rng: Any) -> tuple:
+    ma = rng.choice([-1] * 12 + [2] * 6 + [0, 0] + [BAD_MAXAGE])
+    ex = rng.choice([0] * 14 + [EXP_FUTURE] * 4 + [EXP_PAST] * 2 + [EXP_EPOCH])
+    if ma == BAD_MAXAGE and rng.random() < 0.7:
+        ex = rng.choice([EXP_FUTURE, EXP_FUTURE, EXP_PAST])
+    return ma, ex
 
 
 # ---------------------------------------------------------------- re-sent cookies
@@ -240,8 +255,7 @@ def random_history(rng: Any, nmin: int = 4, nmax: int = 12, queries: bool = Fals
             kind = rng.choice(["absent"] * 14 + ["same"] * 8 + ["parent"] * 6 + ["dotparent", "child", "sibling",
                                                                                    "lookalike", "traildot"] * 2 + ["upper"])
             pa = None if rng.random() < 0.4 else rng.choice(pathpool)
-            ma = rng.choice([-1] * 6 + [2, 2, 2, 0])
-            ex = rng.choice([0] * 7 + [EXP_FUTURE, EXP_FUTURE, EXP_PAST])
+            ma, ex = random_lifetime(rng)
             stim.append(receive_event(h, rng.choice(pathpool), rng.choice(SCHEMES), rng.choice(names), val,
                                       resolve_dom(h, kind), pa, rng.random() < 0.25, ma, ex))
         elif r < 0.78:
@@ -261,4 +275,77 @@ def random_history(rng: Any, nmin: int = 4, nmax: int = 12, queries: bool = Fals
             e = blank_event("Query")
             e.update({"host": list(rng.choice(hosts)), "path": dict(rng.choice(pathpool)), "scheme": rng.choice(SCHEMES)})
             stim.append(e)
+    return {"unsafe": unsafe, "stimuli": stim}
+
+
+# ---------------------------------------------------------------- session-level histories
+def hop_event(start: bool, host: List[str], path: dict, scheme: str, rc: Optional[List[int]] = None) -> dict:
+    e = blank_event("Hop")
+    e.update({"start": bool(start), "host": list(host), "path": dict(path), "scheme": scheme,
+              "rc": list(rc or [0, 0]), "via": "session"})
+    return e
+
+
+def random_session_history(rng: Any) -> Dict[str, Any]:
+    """Requests of a real ClientSession as sequences of hops: a jar filled by earlier responses, then
+    1-3 requests of 1-4 hops each; redirect targets on the same origin (other path), on the same host
+    with the other scheme, or on another host; Set-Cookie on some responses (3xx and final); jar
+    changes between hops (clock, clear, another response arriving); per-request cookies= on some."""
+    unsafe = rng.random() < 0.15
+    hosts = rng.choice([[EXAMPLE, A_EX, B_EX], [EXAMPLE, A_EX, X_EX, COM], HOSTS, [EXAMPLE, A_EX]])
+    paths = rng.choice([PATHS, PATHS, [ROOT, PATHS[1], PATHS[3]]])
+    names = rng.choice([["n"], ["n", "m"]])
+    stim: List[dict] = []
+
+    def jar_receive(h: List[str], p: dict, sc: str, via: str = "jar") -> dict:
+        kind = rng.choice(["absent"] * 5 + ["same"] * 2 + ["parent"] * 3 + ["dotparent", "sibling"])
+        pa = None if rng.random() < 0.3 else rng.choice(paths)
+        ma, ex = random_lifetime(rng)
+        e = receive_event(h, p, sc, rng.choice(names), 0, resolve_dom(h, kind), pa, rng.random() < 0.25, ma, ex)
+        e["via"] = via
+        return e
+
+    for _ in range(rng.randint(1, 4)):
+        stim.append(jar_receive(rng.choice(hosts), rng.choice(paths), rng.choice(SCHEMES)))
+    for _req in range(rng.randint(1, 3)):
+        h, p, sc = rng.choice(hosts), rng.choice(paths), rng.choice(SCHEMES)
+        rc = [0, 0]
+        if rng.random() < 0.3:
+            for k, nm in enumerate(NAMES):
+                if nm in names and rng.random() < 0.6:
+                    rc[k] = RC_VALUES[nm]
+        stim.append(hop_event(True, h, p, sc, rc))
+        for _hop in range(rng.randint(0, 3)):
+            # what happens while the request waits for the response
+            r = rng.random()
+            if r < 0.15:
+                t = blank_event("Tick")
+                t["n"] = rng.choice([1, 2, 3])
+                stim.append(t)
+            elif r < 0.25:
+                stim.append(jar_receive(rng.choice(hosts), rng.choice(paths), rng.choice(SCHEMES)))
+            elif r < 0.30:
+                c = blank_event("ClearDomain")
+                c["d"] = list(rng.choice(hosts))
+                stim.append(c)
+            elif r < 0.33:
+                stim.append(blank_event("SaveLoad"))
+            if rng.random() < 0.35:                       # the 3xx response sets a cookie
+                stim.append(jar_receive(h, p, sc, via="session"))
+            r = rng.random()
+            if r < 0.55:                                  # same origin, another path
+                p = rng.choice([q for q in paths if q != p] or paths)
+            elif r < 0.65:                                # same host, other scheme: another origin
+                sc = "https" if sc == "http" else "http"
+            else:
+                h = rng.choice([x for x in hosts if x != h] or hosts)
+                if rng.random() < 0.5:
+                    p = rng.choice(paths)
+            stim.append(hop_event(False, h, p, sc))
+        if rng.random() < 0.3:                            # the final response sets a cookie
+            stim.append(jar_receive(h, p, sc, via="session"))
+        if rng.random() < 0.3:
+            t = blank_event("Tick")
+            t["n"] = rng.choice([1, 2])
+            stim.append(t)
     return {"unsafe": unsafe, "stimuli": stim}
